@@ -229,7 +229,7 @@ func main() {
 		if lo > hi {
 			spec.GenTime = now.Add(-50 * day)
 		}
-		tokenOK := true    // the token itself is acceptable (right message, trusted and well-purposed TSA, not revoked)
+		tokenOK := true // the token itself is acceptable (right message, trusted and well-purposed TSA, not revoked)
 		rangeInside := lo <= hi
 		tsRevStatus := "ok"
 		tsaInTSAStore := tsaRoot.Cert
@@ -393,7 +393,6 @@ func main() {
 	r.RequireAtLeast("expiry-results", 1000)
 	r.Finish()
 }
-
 
 // longLivedVerifier: the clock is the moment of EACH verification. A verifier is used once, then a signature whose expiry
 // (and a leaf certificate whose notAfter) lies 2-3 s in the future is minted; the harness waits until both instants are
